@@ -9,4 +9,10 @@ require (
 	gopkg.in/yaml.v3 v3.0.1
 )
 
+require (
+	github.com/x448/float16 v0.8.4 // indirect
+	golang.org/x/sys v0.30.0 // indirect
+	golang.org/x/term v0.29.0 // indirect
+)
+
 replace go.flow.arcalot.io/pluginsdk => /repo
